@@ -34,6 +34,11 @@ Fifth output, lean/Nstd/Generated/ArgsDmn.lean: `Process::daemonize(const String
 (`::open(logFile, O_CREAT | O_WRONLY | .., ..)` and `fork()` answered by oracles, `VERIFY(dup2(fd, STDOUT_FILENO) != -1)`, `VERIFY(setsid() != -1)`,
 `exit(0)`; lean/Nstd/Args/CSemDmn.lean); lean/Nstd/Args/PropsDmn.lean proves it equal to `Kernel.daemonizeFds`.
 
+Sixth output, lean/Nstd/Generated/ArgsVec.lean: a FRAGMENT translation -- the statement behind `const char** args;` ("prepare argv of child") in
+`Process::start(program, argc, argv, environment)` and in `Process::open(executable, argc, argv, streams, environment)` (pointer vectors of
+lean/Nstd/Args/CSemVec.lean: `argv[i]`, `args[i] = ..`, `(const char**)alloca(sizeof(const char*) * n)`); lean/Nstd/Args/PropsVec.lean proves
+both equal to `prepareArgv`.  The rest of these two functions is not translated.
+
 Anything outside the understood subset is REFUSED (exception -> the check reports a broken tie).
 
 Translation scheme (assumptions, listed in the MANIFEST note):
@@ -60,6 +65,7 @@ OUT_PROC = VERIF / "lean" / "Nstd" / "Generated" / "ArgsProc.lean"
 OUT_SEL = VERIF / "lean" / "Nstd" / "Generated" / "ArgsSel.lean"
 OUT_STR = VERIF / "lean" / "Nstd" / "Generated" / "ArgsStr.lean"
 OUT_DMN = VERIF / "lean" / "Nstd" / "Generated" / "ArgsDmn.lean"
+OUT_VEC = VERIF / "lean" / "Nstd" / "Generated" / "ArgsVec.lean"
 
 
 class Refuse(Exception):
@@ -232,7 +238,7 @@ TYPES = {
     ("pid_t",): "int",
 }
 BINPREC = [["||"], ["&&"], ["|"], ["^"], ["&"], ["==", "!="], ["<", ">", "<=", ">="], ["<<", ">>"], ["+", "-"], ["*", "/", "%"]]
-ALLOWED_BIN = {"||", "&&", "&", "|", "==", "!=", "<", ">", "+", "-"}
+ALLOWED_BIN = {"||", "&&", "&", "|", "==", "!=", "<", ">", "+", "-", "*"}
 
 
 class Parser:
@@ -419,6 +425,9 @@ class Parser:
             ty = self.peek(1)[1]
             self.i += 3
             return ("cast", ty, self.unary())
+        if self.at("(") and self.at("const", 1) and self.at("char", 2) and self.at("*", 3) and self.at("*", 4) and self.at(")", 5):
+            self.i += 6
+            return ("cast", "vecptr", self.unary())
         if self.at("(") and self.at("const", 1) and self.at("char", 2) and self.at("*", 3) and self.at(")", 4):
             self.i += 5
             return ("cast", "cstr", self.unary())
@@ -431,7 +440,7 @@ class Parser:
         if self.at("-") and self.peek(1)[0] == "num":
             self.eat()
             return ("num", -self.eat()[1])
-        for op in ("--", "-", "~", "&", "+", "sizeof"):
+        for op in ("--", "-", "~", "&", "+"):
             if self.at(op):
                 raise Refuse(f"{self.fn}: unary `{op}`")
         return self.postfix()
@@ -485,6 +494,9 @@ class Parser:
             e = self.expr()
             self.eat(")")
             return e
+        if self.at("sizeof") and self.at("(", 1) and self.at("const", 2) and self.at("char", 3) and self.at("*", 4) and self.at(")", 5):
+            self.i += 6
+            return ("sizeofptr",)
         if self.at("true") or self.at("false"):
             return ("bool", self.eat()[1] == "true")
         if self.at("this") and self.at("->", 1):
@@ -571,9 +583,9 @@ LEAN_KEYWORDS = {"end", "at", "from", "fun", "in", "do", "then", "else", "if", "
                  "where", "by", "def", "instance", "structure", "class", "variable", "local", "private", "mutual", "section",
                  "namespace", "import", "theorem", "example", "calc", "for", "return", "unless", "try", "catch", "finally", "mut",
                  "nomatch", "using", "prefix", "infix", "notation", "macro", "syntax", "deriving", "extends", "universe", "set_option"}
-LEAN_TYPE = {"cstrn": "Option (List Nat)", "fdtable": "Kernel.FdTable", "optnat": "Option Nat", "char": "Nat", "fd": "Nat", "fdset": "List Nat", "rsel": "ReadSel.RS", "evs": "List ReadSel.Ev", "penv": "PEnv", "kern": "K", "cptr": "Ptr", "argvp": "Nat", "optp": "Nat", "usize": "Nat", "int": "Int", "bool": "Bool", "string": "List Nat",
+LEAN_TYPE = {"vec": "Vec", "cstrn": "Option (List Nat)", "fdtable": "Kernel.FdTable", "optnat": "Option Nat", "char": "Nat", "fd": "Nat", "fdset": "List Nat", "rsel": "ReadSel.RS", "evs": "List ReadSel.Ev", "penv": "PEnv", "kern": "K", "cptr": "Ptr", "argvp": "Nat", "optp": "Nat", "usize": "Nat", "int": "Int", "bool": "Bool", "string": "List Nat",
              "strlist": "List (List Nat)"}
-LEAN_DEFAULT = {"cstrn": "none", "fdtable": "(fun _ => none)", "optnat": "none", "char": "0", "fd": "0", "fdset": "[]", "rsel": "⟨0, 0, [], [], false, false⟩", "evs": "[]", "penv": "[]", "kern": "⟨[], []⟩", "cptr": "Ptr.null", "argvp": "0", "optp": "0", "usize": "0", "int": "0", "bool": "false", "string": "[]", "strlist": "[]"}
+LEAN_DEFAULT = {"vec": "[]", "cstrn": "none", "fdtable": "(fun _ => none)", "optnat": "none", "char": "0", "fd": "0", "fdset": "[]", "rsel": "⟨0, 0, [], [], false, false⟩", "evs": "[]", "penv": "[]", "kern": "⟨[], []⟩", "cptr": "Ptr.null", "argvp": "0", "optp": "0", "usize": "0", "int": "0", "bool": "false", "string": "[]", "strlist": "[]"}
 
 
 def fld(name):
@@ -605,6 +617,7 @@ class Fn:
         self.members = set(members)
         self.proc = False                                      # the Process-object functions: syscalls, casts, errno
         self.sel = False                                       # read(buffer, length, streams): fd_set, select, ::read on a pipe
+        self.vecmode = False                                   # the "prepare argv of child" block: pointer vectors
         self.envfn = False                                     # getEnvironmentVariable: `const char*` = null | the value of a variable
         self.dmn = False                                       # daemonize: descriptor table ghost, ::open, dup2, fork, setsid, exit
         self.callees = {}                                      # member functions that may be called: C++ name -> (Lean name, parameter names)
@@ -709,12 +722,21 @@ class Fn:
             if e[1].startswith("Process::") and e[1][9:] in self.flags:
                 return k("intlit", str(self.flags[e[1][9:]]))
             raise Refuse(f"{self.name}: unknown constant `{e[1]}`")
+        if (kind == "cast" and e[1] == "vecptr" and self.vecmode and e[2][0] == "call" and e[2][1] == "alloca" and len(e[2][2]) == 1
+                and e[2][2][0][0] == "bin" and e[2][2][0][1] == "*" and e[2][2][0][2] == ("sizeofptr",)):
+            def ka(ty, term):
+                if ty != "int":
+                    raise Refuse(f"{self.name}: alloca(sizeof(const char*) * {ty})")
+                return k("vec", f"(vecAlloc {term})")
+            return self.cexpr(e[2][2][0][3], ka)
         if kind == "cast":
             def kk(ty, term):
                 if e[1] == "char" and ty == "int":
                     return k("char", f"(toChar {term})")
                 if e[1] == "usize" and ty == "usize":
                     return k("usize", term)
+                if e[1] == "vecptr" and ty == "vec":
+                    return k("vec", term)
                 if e[1] == "ucptr" and ty == "cptr":
                     return k("ucptr", term)                 # the same address, read as unsigned char
                 if e[1] == "int" and ty == "uchar":
@@ -773,6 +795,8 @@ class Fn:
                             return self.bind(f"Ptr.sub {xa} {xb}", k, "cptr")
                         if ta == "cptr" and tb == "cptr":
                             return self.bind(f"Ptr.diff {xa} {xb}", k, "usize")
+                        if ta == "int" and tb == "intlit" and self.vecmode:
+                            return k("int", f"({xa} - {xb})")
                         if ta == "int" and tb in ("int", "uchar"):
                             return k("int", f"({xa} - {self.convert('int', 'fd' if tb == 'uchar' else 'int', xb)})")
                     if op == "&":
@@ -781,6 +805,13 @@ class Fn:
                     raise Refuse(f"{self.name}: `{ta} {op} {tb}`")
                 return self.cexpr(b, kb)
             return self.cexpr(a, ka)
+        if kind == "index" and self.vecmode and e[1][0] == "var" and self.vars.get(e[1][1]) == "vec":
+            def ki(ti, xi):
+                if ti not in ("int", "intlit"):
+                    raise Refuse(f"{self.name}: vector index of type {ti}")
+                self.reads.add(e[1][1])
+                return self.bind(f"vecGet s.{fld(e[1][1])} {self.convert('int', ti, xi)}", k, "cstrn")
+            return self.cexpr(e[2], ki)
         if kind == "index":
             return self.cexpr(("un", "*", ("bin", "+", e[1], e[2])), k)
         if kind == "arrow":
@@ -912,7 +943,7 @@ class Fn:
             t = self.tmp()
             return (f"match Ptr.add s.{fld(name)} {amount} with\n| none => none\n| some {t} =>\n"
                     + ind(self.update(name, t, k)))
-        if ty in ("usize", "argvp", "optp"):
+        if ty in ("usize", "argvp", "optp") or (ty == "int" and self.vecmode):
             return self.update(name, f"s.{fld(name)} + {amount}", k)
         raise Refuse(f"{self.name}: increment of a {ty}")
 
@@ -926,7 +957,7 @@ class Fn:
                 return term
         elif target == "usize" and ty in ("usize", "intlit"):
             return term
-        elif target == ty and target in ("cptr", "optp", "argvp", "bool", "string", "fd", "cstrn"):
+        elif target == ty and target in ("cptr", "optp", "argvp", "bool", "string", "fd", "cstrn", "vec"):
             return term
         raise Refuse(f"{self.name}: a {ty} is stored into a {target}")
 
@@ -1002,7 +1033,7 @@ class Fn:
                     chars, ints, nats = ("char", "charlit"), ("int", "charlit", "intlit", "fd"), ("usize", "intlit")
                     ok = ((ta in chars and tb in chars) or (ta in nats and tb in nats) or (ta == tb and ta in ("optp", "argvp"))
                           or (ta in ints and tb in ints and "int" in (ta, tb)))
-                    if not ok or (op == "<" and (ta in chars or (ta == "int" and not self.sel))):
+                    if not ok or (op == "<" and (ta in chars or (ta == "int" and not (self.sel or self.vecmode)))):
                         raise Refuse(f"{self.name}: comparison `{ta} {op} {tb}`")
                     if "int" in (ta, tb):
                         xa2, xb2 = self.convert("int", ta, xa), self.convert("int", tb, xb)
@@ -1103,6 +1134,20 @@ class Fn:
         kind = e[0]
         if kind == "assign":
             op, lhs, rhs = e[1], e[2], e[3]
+            if (self.vecmode and op == "=" and lhs[0] == "index" and lhs[1][0] == "var" and self.vars.get(lhs[1][1]) == "vec"):
+                vname = lhs[1][1]
+                def kr(tr, xr):
+                    val = "none" if (tr, xr) == ("intlit", "0") else xr if tr == "cstrn" else f"(some {xr})" if tr == "string" else None
+                    if val is None:
+                        raise Refuse(f"{self.name}: a {tr} is stored into a vector element")
+                    def ki(ti, xi):
+                        if ti not in ("int", "intlit"):
+                            raise Refuse(f"{self.name}: vector index of type {ti}")
+                        t = self.tmp()
+                        return (f"match vecSet s.{fld(vname)} {self.convert('int', ti, xi)} {val} with\n| none => none\n| some {t} =>\n"
+                                + ind(self.update(vname, t, lambda: k.text)))
+                    return self.cexpr(lhs[2], ki)
+                return self.cexpr(rhs, kr)
             if lhs[0] != "var" or lhs[1] not in self.vars:
                 raise Refuse(f"{self.name}: assignment to something that is not a variable")
             name, ty = lhs[1], self.vars[lhs[1]]
@@ -1576,6 +1621,52 @@ def generate_dmn(repo):
     return "\n".join(out)
 
 
+def generate_vec(repo):
+    """the statement behind `const char** args;` ("prepare argv of child") in Process::start(program, argc, argv, environment) and in
+    Process::open(executable, argc, argv, streams, environment)"""
+    cpp = posix_branch(scan((Path(repo) / "src/Process.cpp").read_text()))
+    sites = [("startPrep", ["uint32", "Process", "::", "start", "(", "const", "String", "&", "program", ",", "int", "argc", ",", "char", "*",
+                            "const", "argv", "[", "]", ",", "const", "Map", "<", "String", ",", "String", ">", "&", "environment", ")"],
+              "program", "Process::start(program, argc, argv, environment)"),
+             ("openPrep", ["bool", "Process", "::", "open", "(", "const", "String", "&", "executable", ",", "int", "argc", ",", "char", "*",
+                           "const", "argv", "[", "]", ",", "uint", "streams", ",", "const", "Map", "<", "String", ",", "String", ">", "&",
+                           "environment", ")"], "executable", "Process::open(executable, argc, argv, streams, environment)")]
+    out = ["/- generated by tools/gen_args.py from src/Process.cpp — do not edit -/", "import Nstd.Args.CSemVec", "",
+           "set_option linter.unusedVariables false", "", "namespace Nstd.Args.GenV", "open Nstd.Args Nstd.Args.C", "",
+           "/-- `argc`, `argv`, the local vector `args`, the program / executable, the loop counter -/",
+           "structure AS where\n  argc : Int\n  argv : Vec\n  args : Vec\n  program : List Nat\n  i : Int\n"]
+    for name, sig, prog, what in sites:
+        body = find_body(cpp, sig, what)
+        texts = [t[1] if t[0] in ("id", "op") else None for t in body]
+        pat = ["const", "char", "*", "*", "args", ";"]
+        hits = [i for i in range(len(texts) - len(pat)) if texts[i:i + len(pat)] == pat]
+        if len(hits) != 1:
+            raise Refuse(f"{what}: the declaration `const char** args;` was found {len(hits)} times")
+        p = Parser(list(body[hits[0] + len(pat):]), name)
+        frag = p.stmt()
+        if frag[0] != "if":
+            raise Refuse(f"{what}: the statement behind `const char** args;` is not an if")
+        def ren(x):
+            if isinstance(x, tuple):
+                if x and x[0] == "var" and x[1] == prog:
+                    return ("var", "program")
+                if x and x[0] in ("chr", "num", "str", "bool", "qual"):
+                    return x
+                return tuple(ren(y) for y in x)
+            if isinstance(x, list):
+                return [ren(y) for y in x]
+            return x
+        frag = rename_locals([ren(frag)], ["i"], name)
+        f = Fn(name, "AS", "void", {"argc": "int", "argv": "vec", "args": "vec", "program": "string"}, {}, {}, True)
+        f.proc = f.vecmode = True
+        blocks = f.function(frag, "the statement behind `const char** args;` (\"prepare argv of child\") in `" + what + "`")
+        if f.vars != {"argc": "int", "argv": "vec", "args": "vec", "program": "string", "i": "int"}:
+            raise Refuse(f"{what}: unexpected variables {sorted(f.vars)}")
+        out += ["\n\n".join(blocks), ""]
+    out += ["end Nstd.Args.GenV", ""]
+    return "\n".join(out)
+
+
 def generate_sel(repo):
     """ssize Process::read(void* buffer, usize length, uint& streams) (POSIX branch)"""
     cpp = posix_branch(scan((Path(repo) / "src/Process.cpp").read_text()))
@@ -1621,19 +1712,20 @@ def run(repo=None):
         stext = generate_sel(repo)
         gtext = generate_str(repo)
         dtext = generate_dmn(repo)
+        vtext = generate_vec(repo)
     except (Refuse, OSError, IndexError) as ex:
         return False, f"tools/gen_args.py refuses the current Process.cpp / Process.hpp / String.hpp (broken tie): {ex}"
     OUT.parent.mkdir(parents=True, exist_ok=True)
-    for out, t in ((OUT, text), (OUT_PROC, ptext), (OUT_SEL, stext), (OUT_STR, gtext), (OUT_DMN, dtext)):
+    for out, t in ((OUT, text), (OUT_PROC, ptext), (OUT_SEL, stext), (OUT_STR, gtext), (OUT_DMN, dtext), (OUT_VEC, vtext)):
         if not out.exists() or out.read_text() != t:
             out.write_text(t)
-    return True, hashlib.sha1((text + ptext + stext + gtext + dtext).encode()).hexdigest()[:12]
+    return True, hashlib.sha1((text + ptext + stext + gtext + dtext + vtext).encode()).hexdigest()[:12]
 
 
 def stats():
     """what the three generated files contain (evidence)"""
     out = {}
-    for f in (OUT, OUT_PROC, OUT_SEL, OUT_STR, OUT_DMN):
+    for f in (OUT, OUT_PROC, OUT_SEL, OUT_STR, OUT_DMN, OUT_VEC):
         if f.exists():
             t = f.read_text()
             out[f.name] = {"definitions": len(re.findall(r"(?m)^def ", t)), "loops": len(re.findall(r"(?m)^def \w+_loop\d+ ", t)),
@@ -1648,9 +1740,10 @@ def gen(ctx):
                                             "Process::Process", "Process::~Process", "isRunning", "kill", "join(uint32&)", "join()",
                                             "close(uint)", "exit", "read(buffer, len)", "write", "setEnvironmentVariable", "getEnvironmentVariable",
                                             "read(buffer, length, streams)", "String::length", "String::find(const char*, char)",
-                                            "String::compare(const char*, const char*, usize)", "daemonize"]}
+                                            "String::compare(const char*, const char*, usize)", "daemonize",
+                                            "the 'prepare argv of child' statement of start(program, argc, argv, env) and open(executable, argc, argv, streams, env)"]}
     if ok:
-        ctx.notes.append(f"translator: Nstd/Generated/ArgsCode.lean, ArgsProc.lean, ArgsSel.lean, ArgsStr.lean, ArgsDmn.lean regenerated from the current Process.cpp / Process.hpp / String.hpp (sha1 {msg})")
+        ctx.notes.append(f"translator: Nstd/Generated/ArgsCode.lean, ArgsProc.lean, ArgsSel.lean, ArgsStr.lean, ArgsDmn.lean, ArgsVec.lean regenerated from the current Process.cpp / Process.hpp / String.hpp (sha1 {msg})")
     return ok, msg
 
 
